@@ -4,7 +4,7 @@ from __future__ import annotations
 import asyncio
 from typing import Any, Dict, List
 
-from sim.gen_worker import gen_worker_script
+from sim.gen_worker import gen_worker_script, tier_knobs
 from sim.rng import stream
 from sim.worker_world import FRAMEWORK_LABELS, SENDING, dec_label, enc_label, enc_labels, make_endpoint
 from sim.worker_world import simulate as _simulate
@@ -70,7 +70,7 @@ def gen(rs: int, tier: str, index: int) -> dict:
         kn["retry"] = {"count": r.randint(2, 4), "label": True, "no_result_on_retry": r.random() < 0.5}
     if mode == "history":
         kn["n_msgs"] = (0, 1)
-    s = gen_worker_script(rs, kn)
+    s = gen_worker_script(rs, tier_knobs(kn, tier, index))
     # middlewares: make sure a pre_execute recorder exists and pre_send suspends sometimes
     rec_mw = None
     for mw in s["config"]["middlewares"]:
